@@ -1,7 +1,49 @@
 """C15 -- the genomic distance behaves as a metric on signatures.
 
 Tie: T (Gen/MetricPyx.v) + B: gambit.metric.jaccarddist on triples of sets; every axiom is evaluated
-exactly (binary32 values as fractions); each distance is also compared with the generated model."""
+exactly (binary32 values as fractions); each distance is also compared with the generated model.
+
+Coverage audit (item -> stream that drives it ON THE IMPLEMENTATION; "P" = property predicate judged there,
+"M" = also compared with the generated model; kinds in brackets):
+  clauses
+    range [0,1]; 0 iff equal; 1 iff disjoint and not both empty; bitwise symmetry; triangle (slack 2^-22)
+                                   -> exhaustive-subset-triples, random-triples [triple] P+M; every audit stream below P
+    width independence             -> [triple] (vs u8), width-collisions [width] (values beyond the narrow type, bulk path),
+                                      storage-forms, bulk-mixed-width-sequences, bulk-options(wide) P
+    strict decrease, common k-mer  -> [triple] (only x above the maximum, u8, pair ab); add-common-positions and
+                                      add-common-exhaustive-small [addx]: x below / between / above / top of the narrow type,
+                                      chains of several k-mers, stored dtypes, both orders, bulk function P
+  quantifier
+    small universe, exhaustive     -> exhaustive-subset-triples (4 elements quick / 5 thorough), add-common-exhaustive-small
+    large universes, random        -> random-triples (<= 4000 elements, values < 2^17); mid-size-triples [mid] 2*10^4 .. 10^6
+                                      elements (6*10^6 thorough; near-equal, touching, nested, overlapping) P+M; [big] named 2^24 / 2^25 cases
+    integer widths                 -> all 6 dtypes per set; values at the top of every type incl. >= 2^63 in u8: storage-forms
+    empty / single / repeated sets -> exhaustive triples; pairwise-empties; bulk-options (pool with empties, duplicates, subsets)
+  observe at / entry points reaching the same kernel
+    gambit.metric.jaccarddist      -> all of the above; keyword arguments, the same object passed twice, and the raw extension
+                                      function gambit._cython.metric.jaccarddist: storage-forms [form] P
+    storage of the signature       -> storage-forms: strided, negative stride, column of a 2-D array, view inside a larger
+                                      buffer, unaligned, ndarray subclass, np.memmap, element of a SignatureArray P; read-only and
+                                      byte-swapped arrays are OUTSIDE the domain: judged "a value satisfying P, or an error"
+                                      (no model comparison; refusals counted in coverage.out_of_domain_forms_refused)
+    jaccarddist_array              -> width-collisions (1 reference); bulk-options [bulk]: SignatureArray / slice of one (offset
+                                      bounds) / int32 bounds / SignatureList / list / tuple / AnnotatedSignatures, pre-indexed
+                                      references, out= (fresh, stale, strided), rows computed from 4 threads P
+    jaccarddist_matrix             -> bulk-options: query and reference collection types, ref_indices (repeats; list / tuple /
+                                      int64 / int32 array / list of NumPy ints), chunksize (1..n+3, Python or NumPy int), out= (stale
+                                      from an earlier call, strided, Fortran order), progress meter P
+    jaccarddist_pairwise           -> pairwise-empties (square + flat); bulk-options: indices (repeats), flat, out=, progress P
+    file-backed collection         -> bulk-file-backed (HDF5Signatures as references / all-pairs input) P
+    parallel kernel                -> bulk-many-references (40..150 references, OpenMP threads 2 / 3 / 4 / default; most other bulk
+                                      cases run with 1 or 2 threads because one default-width call costs ~0.2 s here) P
+    caller objects reused          -> [bulk] judges jaccarddist on the same array objects after the bulk call; [form] checks the
+                                      arrays still hold their values; out arrays carry stale results of an earlier call
+    gambit dist (CLI)              -> cli-dist [cli]: --square and --qs/--rs, -c 1/2/default, 4-decimal cells judged with the
+                                      print rounding allowed for (|AuB| <= 1000 keeps 0 and 1 exact) P
+  not driven here: gambit.metric.jaccard (the index, property C02); gambit.query.query / `gambit query` (need a reference
+    database: C04/C05/C09 drive jaccarddist_matrix there); unsorted or duplicated arrays, negative values, non-integer
+    dtypes, Python lists as signatures (outside "signatures"; C02's dtype stream judges refusals); the Cython kernel is
+    not re-compiled by mutations in this sandbox (only its Python callers can be mutated)."""
 from fractions import Fraction
 
 import numpy as np
@@ -12,11 +54,23 @@ PROP = 'C15'
 RULE = ('triples (A,B,C) of sorted duplicate-free arrays with per-set dtypes; checked: range, d=0 iff equal, d=1 iff '
         'disjoint and not both empty, bitwise symmetry, triangle inequality with slack 2^-22, width independence, strict '
         'decrease when a new common element is added; non-trivial: the three sets pairwise distinct and pairwise '
-        'intersecting')
+        'intersecting. Audit streams judge the same clauses on: storage-forms (strided / reversed / column / interior / '
+        'unaligned / subclass / memmap / SignatureArray-element views, values up to the top of each integer type, keyword and '
+        'raw-extension calls, same object twice; read-only and byte-swapped arrays: a correct value or an error); bulk-* '
+        '(jaccarddist_array / _matrix / _pairwise over collection types, ref_indices / indices with repeats, chunksize, out= '
+        'arrays that are stale / strided / Fortran-ordered, progress, threads, OpenMP thread counts, mixed-width sequences, '
+        'file-backed collections, 40-150 references; all cells for one pair must agree and the table must satisfy every '
+        'clause, then jaccarddist on the same objects again); add-common-* (absent k-mers added at any position, chains, '
+        'stored dtypes, both orders, bulk function: strictly decreasing; non-trivial: sets intersect, differ, and some k-mer '
+        'is not above the maximum); mid-size-triples (seeded sets of 2*10^4..10^6 elements); cli-dist (printed 4-decimal '
+        'matrices of gambit dist); non-trivial for collections: at least two pairs that intersect without being equal')
 TRUSTED = ['tools/pyx2v.py (Cython subset -> Gallina; C integer / binary32 semantics)',
            'Flocq binary32 model of C float division (validated bit-for-bit by the run)']
 ASSUMPTIONS = ['inputs are sorted and duplicate-free', 'rounding-sensitive statements are claimed for |AuB| <= 2^24 '
-               '(every k <= 12); beyond that see known findings C15-f1/f2']
+               '(every k <= 12); beyond that see known findings C15-f1/f2',
+               'read-only and non-native-byte-order arrays are outside the domain (the wrappers refuse them): judged by the '
+               'property predicate alone when a value is returned; the Coq model covers the two-signature kernel only, the bulk '
+               'entry points, storage forms and the CLI are judged by the property predicate and the integer ratio oracle']
 
 SLACK = Fraction(1, 2 ** 22)
 
@@ -186,7 +240,528 @@ def k_pairwise(ctx, cases):
 			ctx.violation('pairwise', c, bad + f' (signatures {c["sigs"][i]} and {c["sigs"][j]}, container {c["container"]})')
 
 
-KINDS = {'triple': k_triple, 'big': k_big, 'width': k_width, 'pairwise': k_pairwise}
+# ------------------------------------------------------------------------------------------------
+# audit streams: every clause judged on whatever the implementation returns, for other storage
+# forms, call forms, entry points, options, sizes and channels than the triple stream drives
+# ------------------------------------------------------------------------------------------------
+
+FORMS = ['plain', 'strided', 'reversed', 'column', 'interior', 'unaligned', 'subclass', 'memmap', 'sigitem']
+FOREIGN = ['readonly', 'swapped']      # outside the documented domain: judged "a value that satisfies the property, or an error"
+CALLS = ['positional', 'keyword', 'raw']
+_SCRATCH = []
+_REFUSED = {}
+
+
+def _scratch():
+	if not _SCRATCH:
+		from vf import impl
+		_SCRATCH.append(impl.scratch_dir('gambit-verif-c15-'))
+	return _SCRATCH[0]
+
+
+class _Sub(np.ndarray):
+	"""a caller's ndarray subclass"""
+
+
+def _fits(dt, top):
+	"""can dtype dt hold the non-negative value top as a value (signed types: without using the sign bit)"""
+	bits = 8 * int(dt[1]) - (1 if dt[0] == 'i' else 0)
+	return top < 2 ** bits
+
+
+def _form(vals, dt, form, salt=0):
+	"""the sorted values vals as a 1-D array of dtype dt in the given storage form"""
+	import os
+	base = _arr(vals, dt)
+	n = len(vals)
+	junk = np.array([0, -1], dtype='i8').astype(base.dtype)   # 0 and the all-ones pattern
+	if form == 'plain':
+		return base
+	if form == 'strided':
+		step = 2 + salt % 2
+		off = salt % 2
+		buf = np.resize(junk, n * step + 2)
+		v = buf[off:off + n * step:step]
+		v[:] = base
+		return v
+	if form == 'reversed':
+		return np.ascontiguousarray(base[::-1])[::-1]
+	if form == 'column':
+		m = np.resize(junk, (n, 3))
+		m = np.ascontiguousarray(m)
+		m[:, 1] = base
+		return m[:, 1]
+	if form == 'interior':
+		buf = np.concatenate([junk[:1], junk[:1], base, junk[1:], junk[1:]])
+		return buf[2:2 + n]
+	if form == 'unaligned':
+		w = base.dtype.itemsize
+		raw = bytearray(1 + w * n + w)
+		v = np.frombuffer(raw, dtype=base.dtype, count=n, offset=1)
+		v[:] = base
+		return v
+	if form == 'subclass':
+		return base.view(_Sub)
+	if form == 'memmap':
+		if n == 0:
+			return base
+		path = os.path.join(_scratch(), f'mm{salt % 50}')
+		v = np.memmap(path, dtype=base.dtype, mode='w+', shape=(n,))
+		v[:] = base
+		return v
+	if form == 'sigitem':
+		from gambit.sigs.base import SignatureArray
+		return SignatureArray([junk, base, junk[::-1].copy()], dtype=base.dtype)[1]
+	if form == 'readonly':
+		v = base.copy()
+		v.setflags(write=False)
+		return v
+	if form == 'swapped':
+		return base.astype(base.dtype.newbyteorder())
+	raise ValueError(form)
+
+
+class _omp:
+	"""run a block with the OpenMP thread count of the parallel kernel set to n (0: leave the default), as `gambit dist -c n`
+	does through gambit._cython.threads.omp_set_num_threads; restored afterwards"""
+
+	def __init__(self, n):
+		self.n = n
+
+	def __enter__(self):
+		import gambit._cython.threads as th
+		self.th, self.old = th, th.omp_get_max_threads()
+		if self.n:
+			th.omp_set_num_threads(self.n)
+
+	def __exit__(self, *exc):
+		self.th.omp_set_num_threads(self.old)
+
+
+def _dist_call(call, x, y):
+	from gambit.metric import jaccarddist
+	if call == 'keyword':
+		return jaccarddist(coords1=x, coords2=y)
+	if call == 'raw':
+		import gambit._cython.metric as cm
+		return cm.jaccarddist(x.view('u%d' % x.dtype.itemsize), y.view('u%d' % y.dtype.itemsize))
+	return jaccarddist(x, y)
+
+
+def _want(s, u):
+	return round_ratio_f32(s, u) if u else 0
+
+
+def _judge(ctx, kind, c, D, SU, via):
+	"""every clause of the property on the table D of implementation values (None = no value) for signatures whose
+	pairwise (|A^B|, |AuB|) are SU; True if a violation was reported"""
+	n = len(D)
+	for i in range(n):
+		for j in range(n):
+			v = D[i][j]
+			if v is None:
+				continue
+			s, u = SU[i][j]
+			f = float(v)
+			what = None
+			if f != f or not (0 <= f <= 1):
+				what = f'd({i},{j}) = {f!r} outside [0,1]'
+			elif (f == 0) != (s == 0):
+				what = f'd({i},{j}) = {f!r} but sets equal is {s == 0}'
+			elif (f == 1) != (u > 0 and s == u):
+				what = f'd({i},{j}) = {f!r} but disjoint-and-not-both-empty is {u > 0 and s == u}'
+			elif D[j][i] is not None and f32_bits(D[j][i]) != f32_bits(v):
+				what = f'd({i},{j}) = {f!r} and d({j},{i}) = {float(D[j][i])!r} differ bitwise'
+			elif u <= 2 ** 24 and f32_bits(v) != _want(s, u):
+				what = (f'd({i},{j}) = {f!r} (bits {f32_bits(v)}) but the two sets ({s}/{u}) stored as plain 64-bit arrays have '
+				        f'distance bits {_want(s, u)}: the value depends on the storage / width / entry point')
+			if what:
+				ctx.violation(kind, c, f'{via}: {what}', pair=[i, j], s=s, u=u, impl=f32_bits(v) if f == f else 'nan')
+				return True
+	if n <= 8:
+		for i in range(n):
+			for j in range(n):
+				for k in range(n):
+					if D[i][j] is None or D[j][k] is None or D[i][k] is None:
+						continue
+					if _val(D[i][k]) > _val(D[i][j]) + _val(D[j][k]) + SLACK:
+						ctx.violation(kind, c, f'{via}: triangle inequality fails: d({i},{k})={float(D[i][k])!r} > d({i},{j})+d({j},{k})+2^-22 = '
+						              f'{float(D[i][j])!r}+{float(D[j][k])!r}', triple=[i, j, k])
+						return True
+	else:
+		# binary32 values >= 2^-24 in [0,1]: binary64 sums of two of them plus 2^-22 are exact
+		M = np.array([[np.nan if x is None else float(x) for x in row] for row in D], dtype='f8')
+		bad = M[:, None, :] > M[:, :, None] + M[None, :, :] + float(SLACK)
+		if bad.any():
+			i, j, k = (int(t) for t in np.argwhere(bad)[0])
+			ctx.violation(kind, c, f'{via}: triangle inequality fails: d({i},{k})={M[i, k]!r} > d({i},{j})+d({j},{k})+2^-22 = {M[i, j]!r}+{M[j, k]!r}',
+			              triple=[i, j, k])
+			return True
+	return False
+
+
+def _su_table(sigs):
+	sets = [set(s) for s in sigs]
+	return [[(len(A ^ B), len(A | B)) for B in sets] for A in sets]
+
+
+def k_form(ctx, cases):
+	"""gambit.metric.jaccarddist on signatures held in other storage forms (strided / reversed / column views, views
+	inside a larger buffer, unaligned, ndarray subclass, memory-mapped, element of a SignatureArray), with values up to
+	the top of each integer type, the same object passed twice, keyword and raw-extension call forms; read-only and
+	byte-swapped arrays are outside the documented domain and judged "a correct value or an error" """
+	for c in cases:
+		names = 'abc'
+		SU = _su_table([c[k] for k in names])
+		forms = [c['f' + k] for k in names]
+		arrs = [_form(c[k], c['d' + k], c['f' + k], salt=c.get('salt', 0) + t) for t, k in enumerate(names)]
+		ctx.case(c, nontrivial=all(0 < SU[i][j][0] < SU[i][j][1] for i, j in ((0, 1), (1, 2), (0, 2))))
+		D = [[None] * 3 for _ in range(3)]
+		bad = False
+		for i in range(3):
+			for j in range(3):
+				foreign = forms[i] in FOREIGN or forms[j] in FOREIGN
+				try:
+					D[i][j] = _dist_call('positional' if foreign else c['call'], arrs[i], arrs[j])
+				except Exception as e:
+					if foreign:
+						key = f'{"+".join(sorted({f for f in (forms[i], forms[j]) if f in FOREIGN}))}: {type(e).__name__}'
+						_REFUSED[key] = _REFUSED.get(key, 0) + 1
+						continue
+					ctx.violation('form', c, f'jaccarddist ({c["call"]}) raised {type(e).__name__}: {e} for two valid signatures in forms '
+					              f'{forms[i]}/{forms[j]} (dtypes {c["d" + names[i]]}/{c["d" + names[j]]}): no distance', pair=[i, j])
+					bad = True
+					break
+			if bad:
+				break
+		if bad:
+			continue
+		if _judge(ctx, 'form', c, D, SU, f'jaccarddist[{c["call"]}] forms {forms}'):
+			continue
+		for t, k in enumerate(names):
+			if [int(x) for x in arrs[t]] != list(c[k]):
+				ctx.violation('form', c, f'signature {k} ({forms[t]}) was modified by the calls: now {[int(x) for x in arrs[t]][:20]}', which=k)
+				break
+		del arrs
+
+
+def _container(arrs, cont, cdt):
+	"""the signatures arrs as the collection type cont (cdt: dtype of single-array containers)"""
+	import os
+	from gambit.sigs.base import SignatureArray, SignatureList, AnnotatedSignatures
+	if cont == 'plain':
+		return list(arrs)
+	if cont == 'tuple':
+		return tuple(arrs)
+	if cont == 'list':
+		return SignatureList(arrs, dtype=np.dtype(cdt))
+	if cont == 'array':
+		return SignatureArray(arrs, dtype=np.dtype(cdt))
+	if cont == 'slice':
+		pad = np.array([0, 1, 2], dtype=cdt)
+		return SignatureArray([pad, pad[:1]] + list(arrs) + [pad], dtype=np.dtype(cdt))[2:2 + len(arrs)]
+	if cont == 'i4bounds':
+		sa = SignatureArray(arrs, dtype=np.dtype(cdt))
+		return SignatureArray.from_arrays(sa.values, sa.bounds.astype('i4'), None)
+	if cont == 'annotated':
+		return AnnotatedSignatures(SignatureArray(arrs, dtype=np.dtype(cdt)))
+	if cont == 'annotated-list':
+		return AnnotatedSignatures(SignatureList(arrs, dtype=np.dtype(cdt)))
+	if cont == 'hdf5':
+		from gambit.kmers import KmerSpec
+		from gambit.sigs import SignaturesMeta, dump_signatures, load_signatures
+		ks = KmerSpec(11, 'ATGAC')
+		path = os.path.join(_scratch(), 'bulk.gs')
+		if os.path.exists(path):
+			os.remove(path)
+		ids = np.array([f'g{i}' for i in range(len(arrs))], dtype=object)
+		dump_signatures(path, AnnotatedSignatures(SignatureList([a.astype(ks.index_dtype) for a in arrs], ks, dtype=ks.index_dtype), ids,
+		                                          SignaturesMeta(id_attr='key')), 'hdf5')
+		return load_signatures(path)
+	raise ValueError(cont)
+
+
+def _out(shape, how):
+	if how == 'none':
+		return None
+	if how == 'nan':
+		return np.full(shape, np.nan, dtype='f4')
+	if how == 'stale':
+		return np.full(shape, 0.25, dtype='f4')
+	if how == 'fortran':
+		return np.full(shape, np.nan, dtype='f4', order='F')
+	if how == 'strided':
+		big = np.full(tuple(2 * k + 3 for k in shape), np.nan, dtype='f4')
+		return big[tuple(slice(1, 1 + 2 * k, 2) for k in shape)]
+	raise ValueError(how)
+
+
+def _idx(idx, how):
+	if idx is None:
+		return None
+	return {'list': lambda: list(idx), 'tuple': lambda: tuple(idx), 'np': lambda: np.array(idx, dtype='i8'),
+	        'np32': lambda: np.array(idx, dtype='i4'), 'npint-list': lambda: [np.int64(i) for i in idx]}[how]()
+
+
+def k_bulk(ctx, cases):
+	"""every clause through the bulk entry points (jaccarddist_array / jaccarddist_matrix / jaccarddist_pairwise) with their
+	options: collection types, ref_indices / indices (repeats, NumPy or Python integers), chunksize, caller-supplied out
+	arrays (stale contents, strided, Fortran order), progress meter, calls from several threads; then the two-signature
+	function again on the same array objects (inputs must be left as they were)"""
+	from gambit.metric import jaccarddist, jaccarddist_array, jaccarddist_matrix, jaccarddist_pairwise
+	from gambit.util.progress import TestProgressMeter
+	for c in cases:
+		sigs = c['sigs']
+		n = len(sigs)
+		SU = _su_table(sigs)
+		arrs = [_arr(s, dt) for s, dt in zip(sigs, c['dts'])]
+		small = sum(map(len, sigs)) < 60
+		ctx.case(c if small else dict(c, sigs=[len(s) for s in sigs]),
+		         nontrivial=sum(1 for i in range(n) for j in range(i) if 0 < SU[i][j][0] < SU[i][j][1]) >= 2)
+		idx = c.get('idx')
+		sel = list(range(n)) if idx is None else idx
+		prog = TestProgressMeter if c.get('progress') else None
+		via = f'{c["api"]} on {c["container"]}'
+		entries = []
+		qn = c.get('nq', n)      # matrix / array: only the first nq signatures are used as queries
+		try:
+			cont = _container(arrs, c['container'], c['cdt'])
+			omp = _omp(c.get('omp', 1))
+			omp.__enter__()
+			if c['api'] == 'matrix':
+				qs = _container(arrs[:qn], c['qcontainer'], c['cdt'])
+				kw = {}
+				if idx is not None:
+					kw['ref_indices'] = _idx(idx, c['idxtype'])
+				if c.get('chunksize') is not None:
+					kw['chunksize'] = np.int64(c['chunksize']) if c.get('npchunk') else c['chunksize']
+				out = _out((qn, len(sel)), c['out'])
+				if c['out'] == 'stale':
+					jaccarddist_matrix(qs[::-1] if isinstance(qs, (list, tuple)) else qs, cont, out=out, **kw)
+				M = jaccarddist_matrix(qs, cont, out=out, progress=prog, **kw)
+				entries = [(i, sel[t], M[i, t]) for i in range(qn) for t in range(len(sel))]
+			elif c['api'] == 'array':
+				refs = cont if idx is None else cont[_idx(idx, c['idxtype'])] if not isinstance(cont, (list, tuple)) else [cont[i] for i in idx]
+				outs = [_out((len(sel),), c['out']) for _ in range(qn)]
+				def row(i):
+					return jaccarddist_array(arrs[i], refs, out=outs[i]) if outs[i] is not None else jaccarddist_array(arrs[i], refs)
+				if c.get('threads'):
+					from concurrent.futures import ThreadPoolExecutor
+					with ThreadPoolExecutor(4) as ex:
+						rows = list(ex.map(row, range(qn)))
+				else:
+					rows = [row(i) for i in range(qn)]
+				entries = [(i, sel[t], rows[i][t]) for i in range(qn) for t in range(len(sel))]
+			elif c['api'] == 'pairwise':
+				m = len(sel)
+				flat = bool(c.get('flat'))
+				out = _out((m * (m - 1) // 2,) if flat else (m, m), c['out'])
+				kw = {} if idx is None else {'indices': _idx(idx, c['idxtype'])}
+				if c['out'] == 'stale':
+					jaccarddist_pairwise(cont, out=out, flat=flat, **({} if idx is None else {'indices': _idx(idx[::-1], c['idxtype'])}))
+				P = jaccarddist_pairwise(cont, flat=flat, out=out, progress=prog, **kw)
+				if flat:
+					k = 0
+					for s in range(m):
+						for t in range(s + 1, m):
+							entries.append((sel[s], sel[t], P[k]))
+							k += 1
+					if k != len(P):
+						ctx.violation('bulk', c, f'{via}: condensed output has {len(P)} cells for {m} signatures')
+						continue
+				else:
+					entries = [(sel[s], sel[t], P[s, t]) for s in range(m) for t in range(m)]
+			else:
+				raise ValueError(c['api'])
+		except Exception as e:
+			ctx.violation('bulk', c, f'{via} raised {type(e).__name__}: {e} for valid signatures and documented options: no distances')
+			continue
+		finally:
+			omp.__exit__()
+		# all cells standing for the same ordered pair agree; then the clauses on the table
+		D = [[None] * n for _ in range(n)]
+		bad = False
+		for i, j, v in entries:
+			if D[i][j] is not None and f32_bits(D[i][j]) != f32_bits(v) and not (v != v and D[i][j] != D[i][j]):
+				ctx.violation('bulk', c, f'{via}: two cells for the pair ({i},{j}) differ: {float(D[i][j])!r} and {float(v)!r}', pair=[i, j])
+				bad = True
+				break
+			D[i][j] = v
+		if bad or _judge(ctx, 'bulk', c, D, SU, via):
+			continue
+		# the same caller objects afterwards
+		if n <= 12:
+			D2 = [[jaccarddist(arrs[i], arrs[j]) for j in range(n)] for i in range(n)]
+			_judge(ctx, 'bulk', c, D2, SU, f'jaccarddist on the same array objects after {via}')
+
+
+def k_addx(ctx, cases):
+	"""strict decrease when k-mers absent from both sets are added to both, one after the other, at any position (below
+	the minimum, between elements, above the maximum, at the top of the narrower integer type), in the stored dtypes,
+	both argument orders and through the bulk function"""
+	from gambit.metric import jaccarddist, jaccarddist_array
+	from gambit.sigs.base import SignatureArray
+	for c in cases:
+		A, B = set(c['a']), set(c['b'])
+		ctx.case(c, nontrivial=bool(A & B) and A != B and any(x < max(A | B) for x in c['xs']))
+		if A == B:
+			continue
+		prev = None
+		for step, x in enumerate([None] + list(c['xs'])):
+			if x is not None:
+				if x in A or x in B:
+					continue
+				A, B = A | {x}, B | {x}
+			a, b = _arr(sorted(A), c['da']), _arr(sorted(B), c['db'])
+			with _omp(c.get('omp', 1)):
+				cur = {'jaccarddist(a,b)': jaccarddist(a, b), 'jaccarddist(b,a)': jaccarddist(b, a),
+				       'jaccarddist_array(a,SignatureArray[b])': jaccarddist_array(a, SignatureArray([b]))[0],
+				       'jaccarddist_array(b,[a])': jaccarddist_array(b, [a])[0]}
+			if prev is not None:
+				worse = [k for k in cur if not _val(cur[k]) < _val(prev[k])]
+				if worse:
+					k = worse[0]
+					ctx.violation('addx', c, f'{k}: adding common k-mer {x} (step {step}, sets now {len(A)}/{len(B)} elements, dtypes {c["da"]}/{c["db"]}) '
+					              f'does not decrease the distance: {float(prev[k])!r} -> {float(cur[k])!r}', before=f32_bits(prev[k]), after=f32_bits(cur[k]), x=x)
+					break
+			prev = cur
+
+
+def _mid_sets(c):
+	"""three sorted duplicate-free uint64 arrays determined by the case (seeded NumPy generator)"""
+	g = np.random.Generator(np.random.PCG64(c['seed']))
+	size, univ = c['size'], c['univ']
+	base = np.unique(g.integers(0, univ, size=size, dtype=np.uint64))
+	mode = c['mode']
+	if mode == 'overlap':
+		def var(p):
+			keep = base[g.random(base.size) < p]
+			extra = g.integers(univ, 2 * univ, size=max(1, size // 20), dtype=np.uint64)
+			return np.unique(np.concatenate([keep, extra]))
+		return [var(0.9), var(0.99), var(0.5)]
+	if mode == 'near':
+		i, j = sorted(int(t) for t in g.choice(base.size, 2, replace=False))
+		return [base, np.delete(base, i), np.delete(base, [i, j])]
+	if mode == 'touch':
+		top = base[-1]
+		hi = np.unique(g.integers(int(top), int(top) + univ, size=size, dtype=np.uint64))
+		hi = np.unique(np.concatenate([[top], hi]))
+		return [base, hi, np.array([base[0], hi[-1]], dtype=np.uint64)]
+	if mode == 'nested':
+		mid = base[g.random(base.size) < 0.999]
+		return [mid[g.random(mid.size) < 0.5], mid, base]
+	raise ValueError(mode)
+
+
+def k_mid(ctx, cases):
+	"""size classes between the random triples (<= 4000 elements) and the named 2^24 cases: 10^4 .. 10^6 elements, sets
+	given by a seed; every clause on the triple, both orders, plus the generated model on (|A^B|, |AuB|)"""
+	from gambit.metric import jaccarddist
+	for c in cases:
+		U = _mid_sets(c)
+		n = len(U)
+		# every generated value is below 2*univ; a dtype that cannot hold a set as values is replaced by u8 (never truncate)
+		dts = [dt if (u.size == 0 or _fits(dt, int(u[-1]))) else 'u8' for u, dt in zip(U, c['dts'])]
+		arrs = [u.astype('u' + dt[1]).view(dt) for u, dt in zip(U, dts)]
+		SU = [[None] * n for _ in range(n)]
+		for i in range(n):
+			for j in range(n):
+				inter = int(np.intersect1d(U[i], U[j], assume_unique=True).size)
+				union = int(U[i].size + U[j].size - inter)
+				SU[i][j] = (union - inter, union)
+		ctx.case(c, nontrivial=all(0 < SU[i][j][0] < SU[i][j][1] for i in range(n) for j in range(i)))
+		D = [[jaccarddist(arrs[i], arrs[j]) for j in range(n)] for i in range(n)]
+		if _judge(ctx, 'mid', c, D, SU, f'jaccarddist on sets of {[int(u.size) for u in U]} elements'):
+			continue
+		if ctx.model_ok:
+			pairs = [(i, j) for i in range(n) for j in range(n) if i != j]
+			ans = ctx.model([(204, list(SU[i][j])) for i, j in pairs])
+			for (i, j), m in zip(pairs, ans):
+				if m != f32_bits(D[i][j]):
+					ctx.broke('correspondence mid (ratio)', f'{c} pair {i},{j} s,u={SU[i][j]}: impl {f32_bits(D[i][j])} model {m}')
+					break
+
+
+def k_cli(ctx, cases):
+	"""the same distances through the command line (gambit dist --square / --qs --rs, printed with 4 decimals): with
+	|AuB| <= 1000 the rounding to 4 decimals keeps 0 and 1 exact, so every clause is judged on the printed numbers
+	(triangle slack widened by the print rounding, 1.5e-4)"""
+	import csv
+	import os
+	from click.testing import CliRunner
+	import gambit.cli
+	from gambit.kmers import KmerSpec
+	from gambit.sigs import SignatureList, AnnotatedSignatures, SignaturesMeta, dump_signatures
+	ks = KmerSpec(11, 'ATGAC')
+	d = _scratch()
+	for c in cases:
+		sigs = c['sigs']
+		n = len(sigs)
+		SU = _su_table(sigs)
+		ctx.case(c, nontrivial=sum(1 for i in range(n) for j in range(i) if 0 < SU[i][j][0] < SU[i][j][1]) >= 2)
+		paths = {}
+		for name in ('q', 'r'):
+			paths[name] = os.path.join(d, f'cli-{name}.gs')
+			if os.path.exists(paths[name]):
+				os.remove(paths[name])
+			arrs = [np.array(s, dtype=ks.index_dtype) for s in sigs]
+			ids = np.array([f'{name}{i}' for i in range(n)], dtype=object)
+			dump_signatures(paths[name], AnnotatedSignatures(SignatureList(arrs, ks, dtype=ks.index_dtype), ids, SignaturesMeta(id_attr='key')), 'hdf5')
+		out = os.path.join(d, 'cli-out.csv')
+		if os.path.exists(out):
+			os.remove(out)
+		args = ['dist', '--qs', paths['q'], '-o', out] + (['--square'] if c['mode'] == 'square' else ['--rs', paths['r']])
+		if c.get('cores'):
+			args += ['-c', str(c['cores'])]
+		with _omp(0):        # `-c` sets the process-wide thread count; put it back afterwards
+			res = CliRunner().invoke(gambit.cli.cli, args)
+		try:
+			if res.exit_code != 0 or res.exception is not None:
+				raise RuntimeError(f'exit {res.exit_code}: {res.exception!r} {(res.output or "")[-300:]}')
+			with open(out, newline='') as f:
+				rows = list(csv.reader(f))
+			M = [[float(x) for x in r[1:]] for r in rows[1:]]
+			if len(M) != n or any(len(r) != n for r in M):
+				raise RuntimeError(f'{len(M)} rows for {n} signatures')
+		except Exception as e:
+			ctx.violation('cli', c, f'gambit {" ".join(args[:1] + args[-2:])}: no distance matrix for valid signatures: {type(e).__name__}: {e}')
+			continue
+		what = None
+		for i in range(n):
+			for j in range(n):
+				s, u = SU[i][j]
+				v = M[i][j]
+				if not (0 <= v <= 1):
+					what = f'cell ({i},{j}) = {v!r} outside [0,1]'
+				elif (v == 0) != (s == 0):
+					what = f'cell ({i},{j}) = {v!r} but sets equal is {s == 0}'
+				elif (v == 1) != (u > 0 and s == u):
+					what = f'cell ({i},{j}) = {v!r} but disjoint-and-not-both-empty is {u > 0 and s == u}'
+				elif M[j][i] != v:
+					what = f'cells ({i},{j}) = {v!r} and ({j},{i}) = {M[j][i]!r} differ'
+				elif u and abs(Fraction(v) - Fraction(s, u)) > Fraction(1, 2 ** 24) + Fraction(51, 10 ** 6):
+					what = f'cell ({i},{j}) = {v!r} is not the distance {s}/{u} of the two sets printed with 4 decimals'
+				if what:
+					break
+			if what:
+				break
+		if not what:
+			for i in range(n):
+				for j in range(n):
+					for k in range(n):
+						if Fraction(M[i][k]) > Fraction(M[i][j]) + Fraction(M[j][k]) + SLACK + Fraction(15, 10 ** 5):
+							what = what or f'triangle inequality fails on the printed cells ({i},{k}) > ({i},{j}) + ({j},{k}): {M[i][k]} > {M[i][j]} + {M[j][k]}'
+		if what:
+			ctx.violation('cli', c, f'gambit dist {c["mode"]}: {what} (signatures {sigs})')
+
+
+def finish(ctx):
+	if _REFUSED:
+		ctx.extra['out_of_domain_forms_refused'] = dict(_REFUSED)
+
+
+KINDS = {'triple': k_triple, 'big': k_big, 'width': k_width, 'pairwise': k_pairwise,
+         'form': k_form, 'bulk': k_bulk, 'addx': k_addx, 'mid': k_mid, 'cli': k_cli}
 SHRINK = False
 
 
@@ -237,5 +812,170 @@ def generate(ctx):
 				yield 'pairwise', dict(sigs=pool[:rng.randint(2, len(pool))], dtype=dt, container=cont)
 	yield 'pairwise', dict(sigs=[[], []], dtype='u2', container='array')
 	yield 'pairwise', dict(sigs=[[], [1], []], dtype='u2', container='plain')
+	# ---- audit streams (see the coverage table in the module docstring) -----------------------------------------------
+	# storage forms x call forms x values up to the top of each integer type
+	offsets = [0, 2 ** 15 - 20, 2 ** 16 - 40, 2 ** 31 - 20, 2 ** 32 - 40, 2 ** 63 - 20, 2 ** 64 - 41]
+	for rnd in range(ctx.pick(260, 2500)):
+		off = offsets[rnd % len(offsets)]
+		span = 40
+		base = sorted(rng.sample(range(span), rng.choice([1, 2, 4, 9, 20])))
+		def sub():
+			r = rng.random()
+			if r < 0.08:
+				return []
+			if r < 0.2:
+				return [off + x for x in base]
+			keep = [x for x in base if rng.random() < 0.7] + rng.sample(range(span), rng.randint(0, 3))
+			return [off + x for x in sorted(set(keep))]
+		fit = [dt for dt in DTYPES if _fits(dt, off + span)]
+		c = dict(a=sub(), b=sub(), c=sub(), call=CALLS[rnd % 3], salt=rnd)
+		for k in 'abc':
+			c['d' + k] = rng.choice(fit)
+			c['f' + k] = rng.choice(FORMS)
+		if rnd % 9 == 0:
+			c['f' + rng.choice('abc')] = rng.choice(FOREIGN)
+		if rnd % 5 == 0:
+			c['b'] = list(c['a'])          # equal sets, different form / width
+		ctx.count('stream:storage-forms')
+		yield 'form', c
+	# bulk entry points x collection types x options
+	conts = ['array', 'list', 'plain', 'tuple', 'slice', 'i4bounds', 'annotated', 'annotated-list']
+	for rnd in range(ctx.pick(210, 1500)):
+		api = ('matrix', 'array', 'pairwise')[rnd % 3]
+		wide = rnd % 4 == 0
+		univ = 30
+		lift = rng.choice([2 ** 16, 2 ** 32]) if wide else 0
+		core = sorted(rng.sample(range(univ), 6))
+		pool = [[], [], core, core, core[:3], core[3:], [core[0]]]
+		for _ in range(3):
+			pool.append(sorted(set(rng.sample(core, rng.randint(1, 5))) | set(rng.sample(range(univ), rng.randint(0, 4)))))
+		if wide:
+			# the same residues beyond the narrower type's range: must not be confused with the low ones
+			pool += [sorted(set(s) | {lift + x for x in rng.sample(core, 2)}) for s in pool[-2:]]
+		rng.shuffle(pool)
+		sigs = pool[:rng.randint(3, 9)]
+		top = max([x for s in sigs for x in s], default=0)
+		fit = [dt for dt in DTYPES if _fits(dt, top)]
+		cont = rng.choice(conts)
+		if cont in ('plain', 'tuple', 'list', 'annotated-list'):
+			dts = [rng.choice([dt for dt in DTYPES if _fits(dt, max(s, default=0))]) for s in sigs]
+		else:
+			dts = [rng.choice(fit)] * len(sigs)
+		c = dict(sigs=sigs, dts=dts, api=api, container=cont, cdt=rng.choice([dt for dt in fit if dt[1] != '2' or top < 2 ** 15] or fit),
+		         out=rng.choice(['none', 'nan', 'stale', 'strided', 'fortran']), progress=rng.random() < 0.3,
+		         omp=0 if rnd % 40 == 7 else 2 if rnd % 4 == 1 else 1)
+		if rng.random() < 0.6:
+			m = rng.randint(1, len(sigs) + 2)
+			c['idx'] = [rng.randrange(len(sigs)) for _ in range(m)]
+			c['idxtype'] = rng.choice(['list', 'np', 'np32', 'npint-list'] + (['tuple'] if api != 'pairwise' else []))
+		if api == 'matrix':
+			c['qcontainer'] = rng.choice(['plain', 'array', 'list', 'tuple'])
+			c['chunksize'] = rng.choice([None, 1, 2, 3, len(sigs), len(sigs) + 3])
+			c['npchunk'] = rng.random() < 0.3
+		if api == 'array':
+			c['threads'] = rng.random() < 0.3
+			if cont in ('annotated', 'annotated-list') and 'idx' in c and c['idxtype'] == 'npint-list':
+				c['idxtype'] = 'list'
+		if api == 'pairwise':
+			c['flat'] = rng.random() < 0.5
+			if c['out'] == 'fortran' and c['flat']:
+				c['out'] = 'strided'
+		ctx.count('stream:bulk-options')
+		yield 'bulk', c
+	# sequences whose elements have different widths, the first one the narrowest: a collection-level dtype taken from the
+	# first element must not narrow the others (values beyond the narrow type, residues colliding with low values)
+	for rnd in range(ctx.pick(45, 300)):
+		narrow, lim = rng.choice([('u2', 2 ** 16), ('i2', 2 ** 15), ('u4', 2 ** 32), ('i4', 2 ** 31)])
+		core = sorted(rng.sample(range(min(lim, 3000)), 6))
+		first = sorted(rng.sample(core, rng.randint(0, 5)))
+		sigs, dts = [first], [narrow]
+		for _ in range(rng.randint(2, 6)):
+			low = rng.sample(core, rng.randint(0, 5))
+			r = rng.random()
+			hi = [] if r < 0.3 else [lim * rng.randint(1, 3) + x for x in rng.sample(core, rng.randint(1, 3))]
+			sig = sorted(set(low) | set(hi))
+			sigs.append(sig)
+			dts.append(rng.choice([dt for dt in DTYPES if _fits(dt, max(sig, default=0))][:3 if not hi else None]))
+		api = ('matrix', 'pairwise', 'array')[rnd % 3]
+		c = dict(sigs=sigs, dts=dts, api=api, container=rng.choice(['plain', 'tuple', 'list', 'annotated-list']), cdt=narrow,
+		         qcontainer=rng.choice(['plain', 'tuple', 'list']), out=rng.choice(['none', 'stale']), progress=False, omp=1 + rnd % 2,
+		         chunksize=rng.choice([None, 2]), flat=rnd % 2 == 0)
+		if rnd % 4 == 0:
+			c['idx'] = [rng.randrange(len(sigs)) for _ in range(rng.randint(2, len(sigs) + 1))]
+			c['idxtype'] = 'list'
+		ctx.count('stream:bulk-mixed-width-sequences')
+		yield 'bulk', c
+	# file-backed collection (HDF5Signatures) as references / as the all-pairs input
+	for rnd in range(ctx.pick(6, 30)):
+		core = sorted(rng.sample(range(200), 8))
+		sigs = [[], core, core[:4], sorted(set(core[2:]) | set(rng.sample(range(200), 3))), [], core] + \
+		       [sorted(rng.sample(range(200), rng.randint(1, 12))) for _ in range(rng.randint(0, 4))]
+		rng.shuffle(sigs)
+		c = dict(sigs=sigs, dts=['u4'] * len(sigs), api=('matrix', 'pairwise', 'array')[rnd % 3], container='hdf5', cdt='u4', qcontainer='plain',
+		         out=rng.choice(['none', 'stale']), progress=False, chunksize=rng.choice([None, 2, 5]), flat=bool(rnd % 2), omp=2)
+		if rnd % 2:
+			c['idx'] = [rng.randrange(len(sigs)) for _ in range(rng.randint(2, len(sigs)))]
+			c['idxtype'] = 'list'
+		ctx.count('stream:bulk-file-backed')
+		yield 'bulk', c
+	# many references at once: the parallel loop really splits the work; all triples of the table
+	for rnd in range(ctx.pick(4, 20)):
+		n = rng.choice([40, 90, 150])
+		univ = rng.choice([12, 40, 300])
+		sigs = [sorted(rng.sample(range(univ), rng.randint(0, min(univ, 14)))) for _ in range(n)]
+		for _ in range(n // 10):
+			sigs[rng.randrange(n)] = list(sigs[rng.randrange(n)])
+		api = ('array', 'matrix', 'pairwise', 'array')[rnd % 4]
+		if api == 'pairwise':
+			sigs = sigs[:40]
+		c = dict(sigs=sigs, dts=[('u2', 'u4', 'i8', 'u8')[rnd % 4]] * len(sigs), api=api, container='array',
+		         cdt=('u2', 'u4', 'i8', 'u8')[rnd % 4], qcontainer='plain', out=('none', 'stale')[rnd % 2], progress=False, chunksize=(None, 37)[rnd % 2],
+		         threads=rnd % 4 == 3, flat=False, nq=12, omp=(0, 4, 2, 3)[rnd % 4])
+		ctx.count('stream:bulk-many-references')
+		yield 'bulk', c
+	# adding common k-mers at every position, chains, stored dtypes
+	for rnd in range(ctx.pick(150, 1500)):
+		da, db = rng.choice(DTYPES), rng.choice(DTYPES)
+		bits = min(8 * int(dt[1]) - (dt[0] == 'i') for dt in (da, db))
+		top = 2 ** bits - 1
+		lo = rng.choice([0, 5, top - 200]) if rnd % 3 else 5
+		univ = range(lo, lo + 120)
+		A = set(rng.sample(univ, rng.choice([1, 3, 10, 40])))
+		B = set(x for x in A if rng.random() < 0.7) | set(rng.sample(univ, rng.randint(0, 5)))
+		if A == B:
+			B = B ^ {lo + 60}
+		cand = [x for x in list(range(max(0, lo - 5), lo + 125)) + [0, top - 1, top] if 0 <= x <= top and x not in A and x not in B]
+		xs = rng.sample(sorted(set(cand)), min(len(set(cand)), rng.randint(1, 6)))
+		ctx.count('stream:add-common-positions')
+		yield 'addx', dict(a=sorted(A), b=sorted(B), da=da, db=db, xs=xs, omp=2 if rnd % 50 == 3 else 1)
+	# exhaustive: every pair of subsets of {1..4}, every absent k-mer of {0..5} (below, between, above)
+	cnt = 0
+	subs = [[i + 1 for i in range(4) if m >> i & 1] for m in range(16)]
+	for A in subs:
+		for B in subs:
+			if A != B:
+				for x in range(6):
+					if x not in A and x not in B:
+						cnt += 1
+						yield 'addx', dict(a=A, b=B, da=DTYPES[cnt % 6], db=DTYPES[(cnt // 6) % 6], xs=[x])
+	ctx.count('stream:add-common-exhaustive-small', cnt)
+	# size classes between 4000 and 2^24
+	for rnd in range(ctx.pick(8, 40)):
+		size = rng.choice(ctx.pick([20000, 70000, 300000], [20000, 70000, 300000, 1000000, 3000000]))
+		if rnd == 0:
+			size = ctx.pick(1000000, 6000000)
+		mode = ('overlap', 'near', 'touch', 'nested')[rnd % 4]
+		univ = size * rng.choice([2, 5, 1000])
+		dts = [rng.choice(['u8', 'i8'] + (['u4'] if 2 * univ < 2 ** 32 else []) + (['i4'] if 2 * univ < 2 ** 31 else [])) for _ in range(3)]
+		ctx.count('stream:mid-size-triples')
+		yield 'mid', dict(seed=rng.randrange(2 ** 32), size=size, univ=univ, mode=mode, dts=dts)
+	# command line channel
+	for rnd in range(ctx.pick(6, 30)):
+		core = sorted(rng.sample(range(4 ** 11), 9))
+		sigs = [[], core, core[:5], core[4:], sorted(set(core[:7]) | set(rng.sample(range(4 ** 11), 4))), [], list(core)] + \
+		       [sorted(rng.sample(core, rng.randint(1, 8))) for _ in range(rng.randint(0, 3))]
+		rng.shuffle(sigs)
+		ctx.count('stream:cli-dist')
+		yield 'cli', dict(sigs=sigs[:rng.randint(3, len(sigs))], mode=('square', 'qr')[rnd % 2], cores=(1, 2, 2, 1, None, 1)[rnd % 6])
 	yield 'big', dict(name='add_common_2p24')
 	yield 'big', dict(name='one_not_disjoint_2p25')
